@@ -508,3 +508,24 @@ Proof.
     inversion H; subst. intros x Hx. apply N.eqb_neq. eapply (proj2 (K_remove_node v n HK)). exact Hx.
 Qed.
 
+(* ---------- the hypotheses are satisfiable on non-trivial states ---------- *)
+Definition ex_ops : list rop :=
+  [RAddNode 1; RAddNode 2; RAddApp 10; RAddAsk 10 100 0; RReserve 10 100 1 true;
+   RAddApp 11; RAddAsk 11 101 1; RReserve 11 101 1 true (* refused by Node.Reserve: normal reservation present *);
+   RCancelRequired 1 true; RReserve 11 101 1 true; RAddAsk 11 102 1; RReserve 11 102 1 true;
+   RReserve 10 100 2 true].
+Example ex_reachable :
+  exists v, rrun rv_init ex_ops = Some v /\
+    rv_app v = [mkR 11 101 1; mkR 11 102 1; mkR 10 100 2] /\ rv_queue v = [(11, 2); (10, 1)] /\ rv_part v = 3%Z /\
+    views_agree v = true /\ one_per_ask v = true /\ one_per_node_unless_required v = true /\
+    only_outstanding v = true /\ cleanup v = true /\
+    rstep v (RAllocate 10 100 1) = None (* node 1 is reserved for other asks *) /\
+    (exists v', rstep v (RAllocate 10 100 2) = Some v' /\ rv_app v' = [mkR 11 101 1; mkR 11 102 1] /\ rv_part v' = 2%Z).
+Proof.
+  eexists. repeat (split; [vm_compute; reflexivity|]). eexists. repeat (split; [vm_compute; reflexivity|]). vm_compute; reflexivity.
+Qed.
+(* the counter drifts upwards: removal of a reserved ask by the shim does not decrement it *)
+Example ex_drift :
+  exists v, rrun rv_init (ex_ops ++ [RRemoveAsk 10 100; RRemoveApp 11]) = Some v /\
+    rv_app v = [] /\ rv_node v = [] /\ rv_queue v = [] /\ rv_part v = 3%Z /\ views_agree v = true.
+Proof. eexists. repeat (split; [vm_compute; reflexivity|]). vm_compute; reflexivity. Qed.
